@@ -52,6 +52,7 @@ def parseLengthPrefixed (b : Bytes) : LP :=
   | .ok none => .eof
   | .ok (some (size, rest)) =>
     if size == 0 then .frame {} rest
+    else if size ≥ 2 ^ 63 then .err .overflowError   -- `inp.read(size)`: size does not fit a ssize_t
     else
       let data := rest.take size
       match decFrame data with
